@@ -82,3 +82,16 @@ Definition sdb_range (s : sdb) : list (key * bytes) :=
   if s_open s then s_disk s else [].
 
 Definition sdb_reopen (s : sdb) : sdb := new_sdb (s_max s) (s_disk s).
+
+Definition sdb_range_with {St : Type} (h : St -> key * bytes -> St * bool) (st : St) (s : sdb) : St :=
+  if s_open s then iter_with h st (ksort (s_disk s)) else st.
+
+(** Destroy: doClose (`_ = putBatch()`: the pending batch IS written first; cancel; pointer := nil; db.Close());
+    when that returned nil, os.RemoveAll(path); the closer is closed last *)
+Definition sdb_destroy (s : sdb) : sdb * rclass :=
+  let s1 := fst (sdb_put_batch s) in
+  ({| s_batch := s_batch s1; s_size := s_size s1; s_max := s_max s1; s_disk := []; s_open := false |}, ROk).
+
+(** DestroyClosed: os.RemoveAll(path), nothing else (see [db_destroy_closed]) *)
+Definition sdb_destroy_closed (s : sdb) : sdb * rclass :=
+  ({| s_batch := s_batch s; s_size := s_size s; s_max := s_max s; s_disk := []; s_open := s_open s |}, ROk).
